@@ -60,13 +60,13 @@ Theorem c08_negation_refuted :
 Proof. exact negation_refuted. Qed.
 Print Assumptions c08_negation_refuted.
 
-Theorem c08_leading_bracket_refuted :
+Theorem c08_leading_bracket_refuted : peg_leading_rbracket = false ->
   exists p s, k_lead_rbracket false p = true /\
               whole false true false (tr (parse false p)) s = false /\ spec_matches false false p s = true.
 Proof. exact leading_bracket_refuted. Qed.
 Print Assumptions c08_leading_bracket_refuted.
 
-Theorem c08_escaped_alnum_refuted :
+Theorem c08_escaped_alnum_refuted : peg_escaped_alnum_plain = false ->
   exists p s, k_esc_alnum false p = true /\
               whole false true false (tr (parse false p)) s = false /\ spec_matches false false p s = true.
 Proof. exact escaped_alnum_refuted. Qed.
